@@ -16,6 +16,9 @@ class Opts:
 
 
 def small_int(rng):
+    if rng.random() < 0.06:
+        # the edges of the 64-bit ranges (serde_json keeps integers above i64::MAX as u64; seeded C04-6, C09-5)
+        return rng.choice([(1 << 63) - 1, 1 << 63, (1 << 64) - 1, -(1 << 63), (1 << 63) + 1, 1 << 32])
     return rng.choice([0, 1, 2, 3, 5, 7, 10, 23, 24, 255, 256, -1, -2, -5, -24, -25, 1000, 65535, 65536])
 
 
